@@ -222,11 +222,11 @@ def _check_url_str(s, e, plus):
 # every int/float (C repr), so free *non-ASCII* text cannot be exhausted.  The symbolic part is:
 # a free ASCII code point (all 128 values: the escaped ones are forked one by one, the printable
 # ones stay symbolic) between pooled tokens chosen by symbolic index, inside a symbolic shape.
-_TOK = ["", "<", "/", "</", "\\", '"', "\n", "\x00", "\x7f", "\xe9", "\u2028", "\U0001f600", "a",
-        "<\\/", "\\u003c", "</script>"]
+_TOK = ["", "<", "/", "<!--", "-->", "<![CDATA[", "</", "<!", "\\", '"', "\n", "\x00", "\x7f", "\xe9",
+        "\u2028", "\U0001f600", "a", "<\\/", "\\u003c", "</script>", "]]>"]
 _FLOATS = [0.5, -0.0, 1e100, -2.5e-7]
 _INTS = [0, -1, 2 ** 53 + 1, -10 ** 20]
-_KEYS = ["", "k", "<", "/", "\xe9</"]
+_KEYS = ["", "k", "<", "/", "\xe9</", "<!--", "<![CDATA[", "-->", "<!", "</"]
 
 
 def pre_json_str(li: int, c: str, ri: int) -> bool:
@@ -258,6 +258,44 @@ def h_json_str(li: int, c: str, ri: int):
     assert escape.json_decode(e.encode("utf-8")) == s
 
 
+_MARK = ["<", "!", "-", ">", "/", "<!--", "-->", "<![CDATA[", "]]>", "</", "<!", "a", "\\", "script"]
+
+
+def pre_json_markup(idx: List[int]) -> bool:
+    if len(idx) > P.N:
+        return False
+    for i in idx:
+        if not 0 <= i < P.NM:
+            return False
+    return in_shard(idx[0] if len(idx) > 0 else 0)
+
+
+@harness(pre=pre_json_markup, quick=dict(N=3, NM=11, timeout=100), thorough=dict(N=4, NM=len(_MARK), timeout=900),
+         nshards=dict(quick=4, thorough=14), reach=["comment_open", "cdata", "close_tag_assembled"],
+         units=["escape.json_encode", "escape.json_decode"],
+         stubs=["s = concatenation of <= N markup tokens from %r chosen by symbolic index, used as a string "
+                "value, as a dict key at depth 1 and as a dict key at depth 2" % (_MARK,)],
+         outside=["more than N tokens"])
+def h_json_markup(idx: List[int]):
+    """HTML-significant sequences (<!-- <! --> <![CDATA[ </ and anything assembled from their pieces) in
+    strings and in dict keys: the output is valid JSON decoding to an equal value and never contains '</'."""
+    s = "".join([_MARK[i] for i in idx])
+    for v in (s, {s: 1}, {"k": {s: [s]}}):
+        e = escape.json_encode(v)
+        assert "</" not in e, "'</' in JSON output %r" % (e,)
+        try:
+            back = escape.json_decode(e)
+        except ValueError as ex:
+            raise AssertionError("json_encode(%r) = %r is not valid JSON: %s" % (v, e, ex))
+        assert back == v, "json_decode(json_encode(v)) = %r != %r" % (back, v)
+    if s[:4] == "<!--":
+        reached("comment_open")
+    if "<![CDATA[" in s:
+        reached("cdata")
+    if len(idx) >= 2 and idx[0] == 0 and idx[1] == 4:
+        reached("close_tag_assembled")
+
+
 def _mk_value(shape: int, s: str, t: str, n: int, b: bool, f: float, k: str):
     if shape == 0:
         return [None, b, n, f]
@@ -273,14 +311,16 @@ def _mk_value(shape: int, s: str, t: str, n: int, b: bool, f: float, k: str):
         return [s + "<", "/" + t]
     if shape == 6:
         return {k + "<": {"/" + k: s + "<"}}
+    if shape == 8:
+        return {"a": {k: s}, k: [t, {k: None}]}
     return [{"a": s, "b": [t, b]}, [], {}]
 
 
-def _cases(nt: int):
+def _cases(nt: int, nk: int):
     """(shape, si, ti, b, ni, fi, ki) tuples: every shape with every combination of the pool entries it
     actually uses."""
     out = []
-    T, I, F, K, B = range(nt), range(len(_INTS)), range(len(_FLOATS)), range(len(_KEYS)), (0, 1)
+    T, I, F, K, B = range(nt), range(len(_INTS)), range(len(_FLOATS)), range(nk), (0, 1)
     out += [(0, 0, 0, b, n, f, 0) for b in B for n in I for f in F]
     out += [(1, s, t, 0, 0, 0, 0) for s in T for t in T]
     out += [(2, 0, t, 0, 0, 0, k) for t in T for k in K]
@@ -289,10 +329,11 @@ def _cases(nt: int):
     out += [(5, s, t, 0, 0, 0, 0) for s in T for t in T]
     out += [(6, s, 0, 0, 0, 0, k) for s in T for k in K]
     out += [(7, s, t, b, 0, 0, 0) for s in T for t in T for b in B]
+    out += [(8, s, t, 0, 0, 0, k) for s in T for t in T for k in K]
     return out
 
 
-_CASES = {"quick": _cases(3), "thorough": _cases(8)}
+_CASES = {"quick": _cases(4, 6), "thorough": _cases(12, len(_KEYS))}
 
 
 def pre_json_val(i: int) -> bool:
@@ -302,8 +343,8 @@ def pre_json_val(i: int) -> bool:
 @harness(pre=pre_json_val, quick=dict(timeout=100), thorough=dict(timeout=900),
          nshards=dict(quick=2, thorough=8), reach=["nested_lt_slash", "float_leaf"],
          units=["escape.json_encode", "escape.json_decode"],
-         stubs=["value = one of 8 container shapes (None/bool/int/float/list/dict nested to depth 3) with "
-                "str leaves from TOK (first 3 in quick, 8 in thorough), ints %r, floats %r, dict keys %r: the "
+         stubs=["value = one of 9 container shapes (markup tokens also as dict keys at depth 1 and 2) (None/bool/int/float/list/dict nested to depth 3) with "
+                "str leaves from TOK (first 4 in quick - incl. '<!--' - 12 in thorough; first 6 keys in quick, incl. '<!--'), ints %r, floats %r, dict keys %r: the "
                 "combination is chosen by ONE symbolic index into the table of all combinations "
                 "(json.dumps realises numbers and dict keys, and CrossHair 0.0.110 fails internally on "
                 "symbolic text inside containers here), i.e. this harness is an enumeration; the free "
@@ -318,7 +359,7 @@ def h_json_val(i: int):
     assert "</" not in e, "'</' in JSON output %r" % (e,)
     if shape == 5:
         reached("nested_lt_slash")
-    if shape == 0 and fi == 2:
+    if shape == 0:
         reached("float_leaf")
     back = escape.json_decode(e)
     assert back == v, "json_decode(json_encode(v)) = %r != %r" % (back, v)
